@@ -133,8 +133,8 @@ def _wrench(g, m, name, frame=None):
     return m.Wrench(g.arr(g.reals(name, 6)).reshape((6, 1)), None, frame)
 
 
-def defop(name, operands, op, sharing=True, target=None, doc='', max_paths=64):
-    d = dict(max_paths=max_paths, operands=lambda self, g, m: operands(g, m), op=lambda self, g, m, ops: op(m, ops), sharing=sharing,
+def defop(name, operands, op, sharing=True, target=None, doc='', max_paths=64, probes=None):
+    d = dict(max_paths=max_paths, probes=probes, operands=lambda self, g, m: operands(g, m), op=lambda self, g, m, ops: op(m, ops), sharing=sharing,
              target=target, __doc__=doc or name)
     register(type('Val_' + name, (ValueContract,), d))
 
@@ -144,6 +144,16 @@ _T = TMM + ':tm.'
 defop('tm_inv', _tm1, lambda m, o: o[0].inv(), target=_T + 'inv')
 defop('tm_copy', _tm1, lambda m, o: o[0].copy(), target=_T + 'copy')
 defop('tm_copy_ctor', _tm1, lambda m, o: m.tm(o[0]), target=_T + '__init__')
+
+
+def _arr_of_tm(m, o):
+    a = _np.empty((1,), dtype=object)
+    a[0] = o[0]
+    return m.tm(a)
+
+
+defop('tm_ctor_array_of_tm', _tm1, _arr_of_tm, target=_T + '__init__')
+defop('tm_spawnNew', _tm1, lambda m, o: o[0].spawnNew(o[0]), target=_T + 'spawnNew')
 defop('tm_T', _tm1, lambda m, o: o[0].TM.T.copy() if False else None, sharing=False, target=_T + 'T')
 defop('tm_gRot', _tm1, lambda m, o: o[0].gRot(), target=_T + 'gRot')
 defop('tm_gTAA', _tm1, lambda m, o: o[0].gTAA(), target=_T + 'gTAA')
@@ -280,8 +290,8 @@ def _tm2_delta(g, m):
     return _tm2(g, m)[:2] + [g.real('d', lo=0.01, hi=1.0)]
 
 
-def hop(name, operands, op, target):
-    defop('helper_' + name, operands, op, sharing=False, target=target)
+def hop(name, operands, op, target, probes=None):
+    defop('helper_' + name, operands, op, sharing=False, target=target, probes=probes)
 
 
 hop('localToGlobal', _tm2, lambda m, o: m.fsr.localToGlobal(o[0], o[1]), BH + ':localToGlobal')
@@ -296,6 +306,20 @@ hop('IKPath', _tm2, lambda m, o: m.fsr.IKPath(o[0], o[1], 4), _F + 'IKPath')
 hop('poseError', _tm2, lambda m, o: m.fsr.poseError(o[0], o[1]), _F + 'poseError')
 hop('geometricError', _tm2, lambda m, o: m.fsr.geometricError(o[0], o[1]), _F + 'geometricError')
 hop('mirror', _tm2, lambda m, o: m.fsr.mirror(o[0], o[1]), _F + 'mirror')
+
+
+def _tm2_lookat(g, m):
+    a, b = _tm2(g, m)
+    d = [b[k] - a[k] for k in range(3)]
+    if g.mode != 'concrete':
+        g.require(d[0] * d[0] + d[1] * d[1] > 0.01)     # degenerate directions: see the probes (bounded stand-in)
+    return [a, b]
+
+
+_deg = dict(ax0=0.0, ax1=0.0, ax2=0.0, ax3=0.0, ax4=0.0, ax5=0.0, bq0=1.0, bq1=0.0, bq2=0.0, bq3=0.0)
+hop('lookAt', _tm2_lookat, lambda m, o: m.fsr.lookAt(o[0], o[1]), _F + 'lookAt',
+    probes=[dict(_deg, bp0=0.0, bp1=0.0, bp2=2.0), dict(_deg, bp0=0.0, bp1=0.0, bp2=-3.0),
+            dict(_deg, bp0=1.0, bp1=0.5, bp2=2.0)])
 hop('planeFromThreePoints', _tm3, lambda m, o: m.fsr.planeFromThreePoints(o[0], o[1], o[2]), _F + 'planeFromThreePoints')
 def _tm2_distinct(g, m):
     a, b = _tm2(g, m)
